@@ -802,6 +802,11 @@ class Function(Ring):
             else:
                 args.append(fa)
 
+        # in case a recorded in-place write is re-evaluated, the buffer values
+        # that are going to be overwritten now have to be stored again
+        if Fout is not None and setitem is None and is_set(Fout.setitem):
+            setitem = (Fout.setitem[0], operator.getitem(args[0], Fout.setitem[0]).copy())
+
         # STEP 2: call the function
         # print 'func=',func
         # print 'args=',args
